@@ -259,6 +259,32 @@ theorem C16_fwf_roundtrip (rec : Rec) (fmt : List GCol) (filler text : Str)
       · rw [hc.1 c hcm] at this
         simpa [colValue, readBack] using this
 
+/-- a column that is not written (not in the record, no mapping) keeps the filler -/
+theorem C16_fwf_absent_is_filler (rec : Rec) (fmt : List GCol) (ch : Char) (text : Str)
+    (hc : Consistent fmt) (hg : genRow rec fmt [ch] = .ok text) (useWidth : Bool) :
+    ∀ c ∈ fmt, source rec c = none →
+      colValue text (readBack useWidth c) = some (List.replicate c.size ch) := by
+  intro c hcm hsrc
+  unfold genRow at hg
+  split at hg
+  · cases hg
+  · have hlen := filler_length (rowLen fmt) [ch] (by simp)
+    obtain ⟨_, h2, _⟩ := genCols_spec rec fmt _ text hg
+      (fun x hx => ⟨hc.1 x hx, Nat.le_trans (till_le_rowLen fmt x hx) hlen⟩) hc.2
+    have hfr := h2 c.offset c.till (fun x hx hsx => by
+      rcases pairwise_disjoint_forall fmt hc.2 x hx c hcm with h | h
+      · subst h; exact absurd hsrc hsx
+      · exact h)
+    have hrep : (List.replicate (rowLen fmt) [ch]).flatten = List.replicate (rowLen fmt) ch := by
+      simp
+    rw [hrep, slice_replicate _ _ _ _ (till_le_rowLen fmt c hcm)] at hfr
+    have hsz : c.till - c.offset = c.size := by have := hc.1 c hcm; omega
+    rw [hsz] at hfr
+    cases useWidth
+    · simpa [colValue, readBack] using hfr
+    · rw [hc.1 c hcm] at hfr
+      simpa [colValue, readBack] using hfr
+
 /-- the text written into a column always has exactly the column's size -/
 theorem C16_fwf_cell_size (isInt : Bool) (size : Nat) (sv : Str) :
     (padOrTrunc isInt size sv).length = size := padOrTrunc_length isInt size sv
@@ -354,6 +380,8 @@ example : Consistent exLayout := by
 
 example : genRow [("id".toList, .int (-7)), ("nm".toList, .str "abcdef".toList)] exLayout ".".toList
     = .ok "-007.abc".toList := by decide
+
+example : genRow [("id".toList, .int 5)] exLayout ".".toList = .ok "0005....".toList := by decide
 
 example : parseRow "-007.abc".toList (exLayout.map (readBack true)) true
     = .ok (.parsed [("id".toList, some "-007".toList), ("nm".toList, some "abc".toList)]) := by decide
